@@ -478,7 +478,7 @@ class DoIPConnection:
         self.protocol_version = protocol_version
         self.separate_diagnostic_message_queue = separate_diagnostic_message_queue
         self._diagnostic_message_queue: asyncio.Queue[DoIPDiagFrame] = asyncio.Queue()
-        self._read_queue: asyncio.Queue[DoIPFrame] = asyncio.Queue()
+        self._read_queue: asyncio.Queue[DoIPFrame | None] = asyncio.Queue()
         self._read_task = asyncio.create_task(self._read_worker())
         self._read_task.add_done_callback(
             handle_task_error,
@@ -570,6 +570,8 @@ class DoIPConnection:
         finally:
             logger.debug("Feeding EOF to reader and requesting a close")
             self.reader.feed_eof()
+            # Wake up a consumer which is already waiting for the next frame.
+            self._read_queue.put_nowait(None)
             await self.close()
 
     def _requeue(self, frames: list[tuple[Any, Any]]) -> None:
@@ -586,7 +588,12 @@ class DoIPConnection:
         # the connection has been terminated.
         if self._is_closed:
             raise ConnectionError
-        return await self._read_queue.get()
+        frame = await self._read_queue.get()
+        if frame is None:
+            # The read worker has terminated; keep the marker for other consumers.
+            self._read_queue.put_nowait(None)
+            raise ConnectionError("DoIP connection closed")
+        return frame
 
     async def read_frame(self) -> DoIPFrame:
         async with self._mutex:
